@@ -1,10 +1,14 @@
 (* C08 -- the driver model (Model/Driver.v) refines the documented error-recovery algorithm (Spec/Recovery.v).
    For ALL grammars, tables (no validity assumption), lexers, options, buffers and semantic algebras.
-     T1  pop_phase_refines, C08_no_pop_when_top_accepts, C08_keeps_lower_values, C08_pops_only_rejecting_states
-     T2  recovering_step_*  (one driver step in recovery mode = the table's action in the error-symbol column)
+     T1  drop_refines, pop_phase_refines(_some/_none/_pending), C08_no_pop_when_top_accepts, C08_keeps_lower_values,
+         C08_pops_only_rejecting_states; outside the domain [pop_defined]: pop_phase_undefined_crashes
+     T2  recovering_step (+ one corollary per kind of cell), recovering_step_trichotomy
      T3  consume_phase_refines, C08_consume_stops_at_first_actionable_term, C08_eof_while_discarding_fails
-     T4  C08_fails_iff
-     T5  C08_one_report_per_error
+     T4  step_reject_iff, C08_fails_iff, C08_fails_iff_converse (run invariants: run_modes_ok, run_pending_ok)
+     T5  C08_track_invariant, C08_one_report_per_error(_output)
+     whole run: C08_refines / C08_refines_run (spec_run predicts => the driver does exactly that),
+                C08_refines_converse / C08_run_predicted (the driver finishes => spec_run predicts exactly that, or
+                the table lacks a cell the algorithm must read)
    Multi-step statements use [steps n s] (n iterations of [step], lines concatenated); [steps_run_from] ties it
    to [run_from]. *)
 Require Import Ctpg.Base.Prelude Ctpg.Model.Grammar Ctpg.Model.LRGen Ctpg.Model.Driver
@@ -1486,7 +1490,7 @@ Section Refines.
             destruct (popdef (ps_cursors s)) eqn:Hdef; [|left; reflexivity].
             destruct (pop_phase_refines _ _ _ _ _ _ _ Hrec Hc Hcs Hg He Hk Hdef) as [P _].
             destruct (spop s1) as [[s2 ev2]|[s2 ev2]]; cbn [as_outcome fst snd] in P.
-            -- pose proof (continue_complete f s _ (ev1 ++ ev2) (inl s2, []) r s' ev Hm ltac:(lia)) as X.
+            -- pose proof (continue_complete f s (S (pop_steps (ps_cursors s))) (ev1 ++ ev2) (inl s2, []) r s' ev Hm ltac:(lia)) as X.
                cbn [fst snd continue_with] in X. rewrite prepend_prepend, !app_nil_r in X. now apply X.
             -- destruct (steps_final_unique _ _ _ _ _ _ _ P Hs) as [E1 E2]. inversion E1; subst. right. reflexivity.
           * assert (Hx : forall (A : Type) (x y : A),
@@ -1508,4 +1512,57 @@ Section Refines.
     - assert (m = 0) by lia. subst m. cbn [steps] in Hs. discriminate.
     - eapply srun_step_complete; eassumption.
   Qed.
+
+  Lemma run_from_steps fuel : forall s out r s' out',
+    run_fromx fuel s out = (r, s', out') -> r <> OutOfFuel ->
+    exists m ev, m <= fuel /\ steps m s = (inr (r, s'), ev) /\ out' = out ++ filter visiblex ev.
+  Proof.
+    induction fuel as [|f IH]; intros s out r s' out' H Hr; cbn [run_from] in H.
+    { inversion H; subst. congruence. }
+    destruct (stepx s) as [[s1|[r1 s1]] ev1] eqn:Hs.
+    - destruct (IH _ _ _ _ _ H Hr) as (m & ev & Hm & Hst & ->).
+      exists (S m), (ev1 ++ ev). split; [lia|]. split.
+      + rewrite (steps_S_inl _ _ _ _ Hs), Hst. reflexivity.
+      + now rewrite filter_app, app_assoc.
+    - inversion H; subst. exists 1, ev1. split; [lia|]. split; [|reflexivity]. rewrite steps_1, Hs. reflexivity.
+  Qed.
+
+  (* both directions, for the real entry point: a finished run (any result but OutOfFuel) is the run the
+     specification predicts with the same fuel, unless the specification's domain was left *)
+  Corollary C08_run_predicted fuel c r s' out :
+    run V C g tbl opts buf cap lexer term_f err_f rule_f fuel c = (r, s', out) -> r <> OutOfFuel ->
+    srun fuel (init c) = None \/
+    exists ev, srun fuel (init c) = Some (r, s', ev) /\ out = filter visiblex ev.
+  Proof.
+    intros H Hr. unfold run in H. destruct (run_from_steps _ _ _ _ _ _ H Hr) as (m & ev & Hm & Hst & ->).
+    destruct (C08_refines_converse m (init c) fuel r s' ev (or_introl eq_refl) Hst Hm) as [E|E]; [left; exact E|].
+    right. exists ev. split; [exact E|reflexivity].
+  Qed.
 End Refines.
+
+(* ---------- axioms used: none ---------- *)
+Print Assumptions drop_refines.
+Print Assumptions pop_phase_refines.
+Print Assumptions pop_phase_refines_some.
+Print Assumptions pop_phase_refines_none.
+Print Assumptions pop_phase_undefined_crashes.
+Print Assumptions C08_no_pop_when_top_accepts.
+Print Assumptions C08_keeps_lower_values.
+Print Assumptions C08_pops_only_rejecting_states.
+Print Assumptions recovering_step.
+Print Assumptions recovering_step_shift_err.
+Print Assumptions recovering_step_reduce.
+Print Assumptions recovering_step_trichotomy.
+Print Assumptions consume_phase_refines.
+Print Assumptions C08_consume_stops_at_first_actionable_term.
+Print Assumptions C08_eof_while_discarding_fails.
+Print Assumptions step_reject_iff.
+Print Assumptions C08_fails_iff.
+Print Assumptions C08_fails_iff_converse.
+Print Assumptions C08_track_invariant.
+Print Assumptions C08_one_report_per_error.
+Print Assumptions C08_one_report_per_error_output.
+Print Assumptions C08_refines.
+Print Assumptions C08_refines_run.
+Print Assumptions C08_refines_converse.
+Print Assumptions C08_run_predicted.
